@@ -124,6 +124,21 @@ def _regroup(shape_name):
     return h
 
 
+def _regroup_ions(E):
+    """reordering with two same-charge ions of one element that differ only in isotope (H+ and D+)"""
+    from periodictable import nsf, formulas
+    T, atoms, data, counts = _mk(E, ('Hq', 'Dq', 'Yq'), 'c04')
+    Hq, Dq, Yq = atoms
+    c1, c2, c3 = counts
+    rho = E.real('rho', lo=0, lo_open=True, hi=25)
+    lam = E.real('lam', lo=0.05, hi=50)
+    a = flat(nsf.neutron_scattering(formulas.formula([(c1, Hq), (c2, Dq), (c3, Yq)]), density=rho, wavelength=lam))
+    for nm, st in (('DHO', [(c2, Dq), (c1, Hq), (c3, Yq)]), ('OHD', [(c3, Yq), (c1, Hq), (c2, Dq)]), ('grouped', [(1, [(c2, Dq), (c3, Yq)]), (c1, Hq)])):
+        b = flat(nsf.neutron_scattering(formulas.formula(st), density=rho, wavelength=lam))
+        for n, x, y in zip(NAMES, a, b):
+            E.eq('reorder_ions[%s].%s' % (nm, n), y, x)
+
+
 def _count_scaling_natural(keys):
     """count scaling also when the density is given as natural_density (isotopes and ions in the formula)"""
     def h(E):
@@ -295,6 +310,36 @@ def _vector_edep(segs, kind='wavelength'):
     return h
 
 
+def _extreme_magnitudes_case(case, tier, seed):
+    """ground (concrete; not a solver claim): the scaling laws at magnitudes far from 1 -- densities from 1e-15 to 1e3,
+    formula units scaled by 1e-12 .. 1e12 -- where an absolute tolerance or an integer type would show"""
+    import periodictable as pt
+    from periodictable import nsf, formulas
+    res = dict(paths=1, claims=0, discharged=0, queries=0, distinct=0, violations=[], inconclusive=[], samples=[], solver_s=0.0, complete=True)
+    pt.H.neutron
+
+    def check(name, ok, vals, obs):
+        res['claims'] += 1
+        if ok:
+            res['discharged'] += 1
+        elif len(res['violations']) < 5:
+            res['violations'].append(dict(case=case.name, claim=name, values=vals, observed=obs, how='concrete'))
+    for text in ('H2O', 'Fe{3+}2O{2-}3', 'Gd[157]2O3', 'D{+}H{+}O{2-}'):
+        f = formulas.formula(text)
+        ref = flat(nsf.neutron_scattering(f, density=1.0, wavelength=2.5))
+        for rho in (1e-15, 1e-12, 1e-10, 1e-7, 1e-3, 1e3):
+            got = flat(nsf.neutron_scattering(f, density=rho, wavelength=2.5))
+            ok = all(abs(g - rho * r) <= 1e-9 * abs(rho * r) for g, r in zip(got[:6], ref[:6])) and abs(got[6] * rho - ref[6]) <= 1e-9 * ref[6]
+            check('density_scaling_extreme[%s]' % text, ok, {'density': rho}, [repr(got)[:120], repr([rho * r for r in ref[:6]])[:120]])
+        for k in (1e-12, 1e-6, 1e6, 1e12, 3, np.int64(7), np.float32(0.5)):
+            got = flat(nsf.neutron_scattering(k * f, density=1.0, wavelength=2.5))
+            ok = all(abs(g - r) <= (1e-6 if isinstance(k, np.float32) else 1e-9) * abs(r) for g, r in zip(got, ref) if r != 0)
+            check('count_scaling_extreme[%s]' % text, ok, {'factor': repr(k)}, [repr(got)[:120], repr(ref)[:120]])
+    res['queries'] = res['distinct'] = res['claims']
+    res['samples'] = [dict(note='ground; densities 1e-15..1e3, count factors 1e-12..1e12 and numpy scalar factors')]
+    return res
+
+
 def _vector_real_case(case, tier, seed):
     """ground (concrete; not a solver claim): vector call == scalar calls for every energy-dependent nuclide of the public
     table and a few ordinary ones, with vectors that mix wavelengths inside, below and beyond the tabulated range"""
@@ -377,6 +422,9 @@ def cases(tier):
     out.append(Case('count_scaling[X alone]', _count_scaling(('X',)), max_paths=mp, timeout_ms=to, portfolio=th))
     out.append(Case('count_scaling[Xiq alone]', _count_scaling(('Xiq',)), max_paths=mp, timeout_ms=to, portfolio=th))
     out.append(Case('vector_vs_scalar_real_tables_ground', None, custom=_vector_real_case))
+    out.append(Case('extreme_magnitudes_ground', None, custom=_extreme_magnitudes_case))
+    out.append(Case('count_scaling[Hq+Dq+Yq]', _count_scaling(('Hq', 'Dq', 'Yq')), max_paths=mp, timeout_ms=to, portfolio=th))
+    out.append(Case('regroup_same_charge_ions', _regroup_ions, max_paths=mp, timeout_ms=to, portfolio=th))
     if th:
         out.append(Case('vector_edep[in+beyond]', _vector_edep([(1.0, 2.0), (4.0, 50.0)]), max_paths=mp * 4, timeout_ms=to, portfolio=th, validate=False,
                         budget_s=1500, expect_incomplete=True))
